@@ -153,6 +153,14 @@ def gen(tier, rng, harness, driver):
             lines.append("!gep.ok %s %s" % (a, sp))
     for _ in range(n // 2):
         lines.append(raw_case(rng).rstrip())
+    # an index (or the base) whose vector type is written through a NAMED type (`%vec = type <2 x i64>`): the result is widened all the same; the use of the result
+    # is written at LLVM's result type, so a parser that computes another type prints another text
+    def hx(x): return x.encode().hex()
+    for vty, rty in (("<2 x i64>", "<2 x i32*>"), ("<vscale x 4 x i32>", "<vscale x 4 x i32*>"), ("<1 x i8>", "<1 x i32*>")):
+        t = ("%%vec = type %s\n\ndefine i32* @f([4 x i32]* %%p, %%vec %%i) {\n\t%%a = getelementptr [4 x i32], [4 x i32]* %%p, i64 0, %%vec %%i\n\t%%e = extractelement %s %%a, i32 0\n\tret i32* %%e\n}\n" % (vty, rty))
+        lines.append("!mod.keeps %s %s" % (hx("%%e = extractelement %s %%a, i32 0" % rty), hx(t)))
+    t = "%pv = type <2 x i32*>\n\ndefine i32* @f(%pv %b) {\n\t%a = getelementptr i32, %pv %b, i64 1\n\t%e = extractelement <2 x i32*> %a, i32 0\n\tret i32* %e\n}\n"
+    lines.append("!mod.keeps %s %s" % (hx("%e = extractelement <2 x i32*> %a, i32 0"), hx(t)))
     return lines
 
 
